@@ -13,7 +13,7 @@
 From Coq Require Import PrimFloat.
 From Coq Require Import ZArith List Bool Reals Lra Permutation.
 From Coquelicot Require Import Coquelicot.
-From BZ Require Import Base.Ops Gen.Point Gen.BBox Hand.Sweep Proofs.C19.
+From BZ Require Import Base.Ops Gen.Point Gen.BBox Hand.Sweep Proofs.C19 Proofs.C19float Base.FloatCmp.
 Import ListNotations.
 Open Scope R_scope.
 
@@ -68,6 +68,45 @@ Proof. exact sweep_example_tie_free. Qed.
 Theorem C19_sweep_example_thm :
   Permutation (map as_ab (bbox_intersections ROps exA exB)) [(0%nat, 0%nat)].
 Proof. exact sweep_example_thm. Qed.
+Theorem C19_includes_float_eq_real :
+  forall (b : bbox float) (p : pt float), bbox_finite b -> pt_finite p -> BBox_includes FOps b p = BBox_includes ROps (bboxR b) (ptR p).
+Proof. exact includes_float_eq_real. Qed.
+Theorem C19_overlaps_float_eq_real :
+  forall (a b : bbox float), bbox_finite a -> bbox_finite b -> BBox_overlaps FOps a b = BBox_overlaps ROps (bboxR a) (bboxR b).
+Proof. exact overlaps_float_eq_real. Qed.
+Theorem C19_sweep_float_eq_real :
+  forall (A B : list (bbox float)), List.Forall bbox_finite A -> List.Forall bbox_finite B -> bbox_intersections FOps A B = bbox_intersections ROps (map bboxR A) (map bboxR B).
+Proof. exact sweep_float_eq_real. Qed.
+Theorem C19_includes_float_iff :
+  forall (b : bbox float) (p : pt float), bbox_finite b -> pt_finite p -> (BBox_includes FOps b p = true <-> (FR (px (bl b)) <= FR (px p) <= FR (px (tr b)) /\ FR (py (bl b)) <= FR (py p) <= FR (py (tr b)))).
+Proof. exact includes_float_iff. Qed.
+Theorem C19_overlaps_float_iff :
+  forall (a b : bbox float), bbox_finite a -> bbox_finite b -> (BBox_overlaps FOps a b = true <-> ((FR (px (bl a)) <= FR (px (tr b)) /\ FR (px (bl b)) <= FR (px (tr a))) /\ (FR (py (bl a)) <= FR (py (tr b)) /\ FR (py (bl b)) <= FR (py (tr a))))).
+Proof. exact overlaps_float_iff. Qed.
+Theorem C19_overlaps_float_sym :
+  forall (a b : bbox float), bbox_finite a -> bbox_finite b -> BBox_overlaps FOps a b = BBox_overlaps FOps b a.
+Proof. exact overlaps_float_sym. Qed.
+Theorem C19_sweep_float_eq_all_pairs :
+  forall (A B : list (bbox float)), List.Forall bbox_finite A -> List.Forall bbox_finite B -> wf_boxesF A -> wf_boxesF B -> tie_freeF A B -> Permutation (map as_ab (bbox_intersections FOps A B)) (all_overlapping_pairsF A B).
+Proof. exact sweep_float_eq_all_pairs. Qed.
+Theorem C19_sweep_float_sound_complete :
+  forall (A B : list (bbox float)), List.Forall bbox_finite A -> List.Forall bbox_finite B -> wf_boxesF A -> wf_boxesF B -> tie_freeF A B -> forall i j, In (i, j) (map as_ab (bbox_intersections FOps A B)) <-> ((i < length A)%nat /\ (j < length B)%nat /\ BBox_overlaps FOps (nth i A dboxF) (nth j B dboxF) = true).
+Proof. exact sweep_float_sound_complete. Qed.
+Theorem C19_sweep_float_no_duplicates :
+  forall (A B : list (bbox float)), List.Forall bbox_finite A -> List.Forall bbox_finite B -> NoDup (map as_ab (bbox_intersections FOps A B)).
+Proof. exact sweep_float_no_duplicates. Qed.
+Theorem C19_sweep_float_eq_all_pairs_iff :
+  forall (A B : list (bbox float)), List.Forall bbox_finite A -> List.Forall bbox_finite B -> (Permutation (map as_ab (bbox_intersections FOps A B)) (all_overlapping_pairsF A B) <-> no_bad_tieF A B).
+Proof. exact sweep_float_eq_all_pairs_iff. Qed.
+Theorem C19_includes_needs_finite :
+  exists (b : bbox float) (p : pt float), bbox_finite b /\ ~ pt_finite p /\ BBox_includes FOps b p = false /\ BBox_includes ROps (bboxR b) (ptR p) = true.
+Proof. exact includes_needs_finite. Qed.
+Theorem C19_overlaps_nan_true_computed :
+  BBox_overlaps FOps (BB (P 0%float 0%float) (P PrimFloat.nan 1%float)) (BB (P 5%float 0%float) (P 6%float 1%float)) = true.
+Proof. exact overlaps_nan_true_computed. Qed.
+Theorem C19_sweep_float_example_thm :
+  Permutation (map as_ab (bbox_intersections FOps exAF exBF)) (all_overlapping_pairsF exAF exBF).
+Proof. exact sweep_float_example_thm. Qed.
 
 Print Assumptions C19_includes_iff.
 Print Assumptions C19_overlaps_iff.
@@ -86,3 +125,16 @@ Print Assumptions C19_overlaps_shared_corner.
 Print Assumptions C19_sweep_example.
 Print Assumptions C19_sweep_example_tie_free.
 Print Assumptions C19_sweep_example_thm.
+Print Assumptions C19_includes_float_eq_real.
+Print Assumptions C19_overlaps_float_eq_real.
+Print Assumptions C19_sweep_float_eq_real.
+Print Assumptions C19_includes_float_iff.
+Print Assumptions C19_overlaps_float_iff.
+Print Assumptions C19_overlaps_float_sym.
+Print Assumptions C19_sweep_float_eq_all_pairs.
+Print Assumptions C19_sweep_float_sound_complete.
+Print Assumptions C19_sweep_float_no_duplicates.
+Print Assumptions C19_sweep_float_eq_all_pairs_iff.
+Print Assumptions C19_includes_needs_finite.
+Print Assumptions C19_overlaps_nan_true_computed.
+Print Assumptions C19_sweep_float_example_thm.
